@@ -453,6 +453,8 @@ struct Filename {
     full: OsString,
     // the "display" name, i.e. the name that appears in an /include directive or an error message
     display: String,
+    // for files that are included indirectly: the name in the /include directive of the main file through which this file is reached
+    main_include: Option<String>,
 }
 
 impl Filename {
@@ -460,6 +462,7 @@ impl Filename {
         Self {
             full,
             display: display.to_string(),
+            main_include: None,
         }
     }
 }
@@ -469,6 +472,7 @@ impl From<&str> for Filename {
         Self {
             full: OsString::from(value),
             display: String::from(value),
+            main_include: None,
         }
     }
 }
@@ -478,6 +482,7 @@ impl From<&Path> for Filename {
         Self {
             display: value.to_string_lossy().to_string(),
             full: OsString::from(value),
+            main_include: None,
         }
     }
 }
@@ -487,6 +492,7 @@ impl From<OsString> for Filename {
         Self {
             display: value.to_string_lossy().to_string(),
             full: value,
+            main_include: None,
         }
     }
 }
